@@ -32,6 +32,7 @@ class Cfg:
     avoid_order_loss: bool = True  # steer away from binary ops / materialize on an un-sliced sort (SQL)
     pred_depth: int = 2
     p_plit: int = 10  # percentage of atomic predicates that are TRUE / FALSE literals
+    p_join_pred: int = 33  # percentage of joins that carry a predicate
     p_restricted: int = 0  # percentage of calculation / sort expressions using an engine-restricted function
     p_wrap: int = 10  # percentage of predicates combined with a constant-foldable operand (OR[p, FALSE], AND[TRUE, p], ...)
     expr_depth: int = 2
@@ -404,7 +405,7 @@ def st_program(draw, cfg, universe=None, leaves=None):
                 other = draw(st.sampled_from(cands))
                 allc = cols | schema(other, leaves)
                 pred = None
-                if allc and draw(st.integers(0, 2)) == 0:
+                if allc and draw(st.integers(0, 99)) < cfg.p_join_pred:
                     pred = draw(st_wrapped_pred(allc, cfg, 1))
                 node = ("join", main, other, pred) if draw(st.booleans()) else ("join", other, main, pred)
         if node is not None:
